@@ -38,6 +38,8 @@ def run(nl_bytes, cfg_lines=(), options=(), ampl=True, extra_files=None, env=Non
         with open(os.path.join(d, stub + ".nl"), "wb") as f:
             f.write(nl_bytes)
         for name, data in (extra_files or {}).items():
+            if "/" in name:
+                os.makedirs(os.path.dirname(os.path.join(d, name)), exist_ok=True)
             with open(os.path.join(d, name), "wb") as f:
                 f.write(data if isinstance(data, bytes) else data.encode())
         with open(os.path.join(d, "cfg.txt"), "w") as f:
@@ -68,7 +70,7 @@ def run(nl_bytes, cfg_lines=(), options=(), ampl=True, extra_files=None, env=Non
                 r.dump_error = str(ex)
         sp = os.path.join(d, stub + ".sol")
         r.sol_text, r.sol, r.sol_error = None, None, None
-        if os.path.exists(sp):
+        if os.path.isfile(sp):
             r.sol_text = open(sp, "rb").read().decode("latin-1")
             try:
                 r.sol = solfile.parse(r.sol_text)
